@@ -4,6 +4,7 @@ import Driver.Util
 import Driver.C15
 import Driver.SrvMerge
 import Driver.NsReg
+import Driver.DataBit
 import Driver.CFilter
 import Driver.RaftLog
 import Driver.DataZSet
@@ -49,6 +50,7 @@ def main (args : List String) : IO UInt32 := do
   | ["srvmerge"] => loop Drv.SrvMerge.step hin hout 3; hout.flush; return 0
   | ["c15"] => loop Drv.C15.step hin hout (); hout.flush; return 0
   | ["nsreg"] => loop Drv.NsReg.step hin hout Z.Reg.empty; hout.flush; return 0
+  | ["datacorebit"] => loop Drv.DataBit.step hin hout {}; hout.flush; return 0
   | ["wal"] => loop Drv.Wal.step hin hout {}; hout.flush; return 0
   | ["lin"] => loop Drv.Lin.step hin hout (); hout.flush; return 0
   | ["crash"] => loop Drv.Crash.step hin hout (); hout.flush; return 0
